@@ -229,7 +229,8 @@ inductive Op (V : Type)
   | read (n : Name)
   | setattr (n : Name) (v : V)
   | delattr (n : Name)
-  | withAttr (n : Name) (v : V)                       -- with_<n>(v) / update_<n>(v)
+  | withAttr (n : Name) (v : V)                       -- with_<n>(v)
+  | updateAttr (n : Name) (v : V)                     -- update_<n>(v)
   | transformAttr (n : Name) (f : Option V → Except Err V) -- transform_<n>(f); `none` = MISSING
   | resetAttr (n : Name)                              -- reset_<n>()
   | elem (n : Name) (f : Option V → Except Err V)     -- element helpers: new collection, then mutate_attr(type_check=False)
@@ -287,6 +288,12 @@ def resetFold (R : RTbl V) : List Name → Dict V → Except Err (Dict V)
     | .error .attributeError => resetFold R rest s
     | .error e => .error e
 
+/-- `_protect_if_unchanged` (methods/scalar.py) of `update_<a>` / `transform_<a>`: on a copy-on-write
+call the new value is compared with `getattr(receiver, a, MISSING)` before it is stored — a property
+getter runs on the receiver (and fills its cache). In place nothing is looked up. -/
+def peek (R : RTbl V) (n : Name) (inplace : Bool) (s : Dict V) : Dict V × List Name :=
+  if inplace then (s, []) else ((readAttr R n s).st, (readAttr R n s).calls)
+
 /-- common tail of the helpers: in place the receiver becomes the result -/
 def finish (inplace : Bool) (self : Dict V) (r : Except Err (Dict V)) (calls : List Name) : StepRes V :=
   match r with
@@ -314,6 +321,11 @@ def step (R : RTbl V) (s : Dict V) (op : Op V) (inplace : Bool) : StepRes V :=
   | .withAttr n v =>
     if !R.managed n then ⟨s, .error .attributeError, none, []⟩ else
     fin s (mutateAttr R n v true s) []
+  | .updateAttr n v =>
+    if !R.managed n then ⟨s, .error .attributeError, none, []⟩ else
+    -- `update_<n>(v)` = `with_<n>(_protect_if_unchanged(v))`: the receiver's current value is looked up first
+    let p := peek R n inplace s
+    fin p.1 (mutateAttr R n v true p.1) p.2
   | .transformAttr n f =>
     if !R.managed n then ⟨s, .error .attributeError, none, []⟩ else
     -- the old value is read on the receiver (fills its cache), then `with_<n>`
@@ -323,7 +335,10 @@ def step (R : RTbl V) (s : Dict V) (op : Op V) (inplace : Bool) : StepRes V :=
       | none => R.ctor0 n        -- `mutate_value`: MISSING + constructor => default-constructed value
     match f old with
     | .error e => ⟨r.st, .error e, none, r.calls⟩
-    | .ok v => fin r.st (mutateAttr R n v true r.st) r.calls
+    | .ok v =>
+      -- `_protect_if_unchanged`: looked up once more (an un-cached property's getter runs again)
+      let p := peek R n inplace r.st
+      fin p.1 (mutateAttr R n v true p.1) (r.calls ++ p.2)
   | .resetAttr n =>
     if !R.managed n then ⟨s, .error .attributeError, none, []⟩ else
     fin s (delAttr R n s) []
